@@ -1,8 +1,8 @@
 """C45 — profiling and tracing events are balanced and well-nested (structural clauses of event emission)."""
-from ..rules import pC45, sC45
+from ..rules import pC45, sC45, s4C45
 
 ID = 'C45'
-TECHNIQUE = ('path-sensitive forward dataflow over the code-generating methods (three-valued evaluation of the tracing / is_terminator tests, event sequences split into '
+TECHNIQUE = ('counter typestate over the control-flow graphs of the C helpers and macro bodies of Profile.c with per-name effect summaries; path-sensitive forward dataflow over the code-generating methods (three-valued evaluation of the tracing / is_terminator tests, event sequences split into '
              'success, error and common-tail segments of the generated C function and by the emitted #if/#else lines); prime implicants of the path-sensitive decision function '
              '"return label reached without a return event" over normalised atomic tests; configuration-matrix evaluation of the '
              'preprocessor conditions around the Profile.c macros; table agreement of guard event, state slot and fired event in the sys.monitoring block; '
@@ -33,7 +33,11 @@ DECIDES = ('C45-GUARD: every put_trace_* call and every raw __Pyx_Trace*/__Pyx_P
            'C45-BRANCH: in every macro/helper of Profile.c the nogil branch and the GIL branch make the same calls apart from GIL acquisition; the legacy macros reach their delivering '
            'call exactly when __Pyx_use_tracing is set; the start event is reachable when the skip flag is 0; the trace and the profile callback of one helper get the same PyTrace_ kind. '
            'C45-COUNT: events used by macros that plain functions execute lie below CyFunc_count, CyGen_count equals the table size, the function state array is declared with the '
-           'function count, every PyMonitoring_EnterScope passes the count of its array.')
+           'function count, every PyMonitoring_EnterScope passes the count of its array. '
+           'C45-BRACKET: in the pre-sys.monitoring implementation every function / macro of Profile.c that raises and lowers the tracing counter (tstate->tracing, through '
+           '__Pyx_EnterTracing / __Pyx_LeaveTracing or any wrapper, effects summarised per name by a fixpoint) or invokes a c_tracefunc / c_profilefunc callback leaves the counter '
+           'unchanged at every exit of every path (return statements, end of body, macro error exits; every #if variant of the body), callbacks run only while it is raised, it is not '
+           'lowered before it is raised, and the raising and lowering macro of each version variant write the same fields (the lowering one not the same constant).')
 NOT_DECIDED = ('nesting of events across calls at run time; that the return events of explicit `return` statements and the default return never both execute (relies on '
                'is_terminator being right); which statements call mark_pos at all; whether can_trace is reset before put_trace_exit when no marker follows (latent); GIL handling inside '
                'the macros beyond branch symmetry; frame / code object set-up of __Pyx_TraceSetupAndCall; which monitoring event a statement kind must produce (RAISE vs RERAISE); exception events (RAISE/RERAISE/EXCEPTION_HANDLED) are only checked for their guard and slot/event '
@@ -104,4 +108,4 @@ SILENT_EDITS = [   # behaviour-preserving, no new violation
 
 def run(ctx):
     return [pC45.rule_guard(ctx), pC45.rule_pair(ctx), sC45.rule_return_conditions(ctx), pC45.rule_macros(ctx), pC45.rule_events(ctx),
-            sC45.rule_args(ctx), sC45.rule_nogil(ctx), sC45.rule_window(ctx), sC45.rule_branch(ctx), sC45.rule_count(ctx)]
+            sC45.rule_args(ctx), sC45.rule_nogil(ctx), sC45.rule_window(ctx), sC45.rule_branch(ctx), sC45.rule_count(ctx), s4C45.rule_bracket(ctx)]
